@@ -1,8 +1,249 @@
+import Corro.Model.Updates
+import Corro.Model.Crdt
 import Driver.Util
-/-! Driver stub for C14: not built yet. -/
+/-! Driver for C14: the update feed of table `t` on node A (site 0), a peer database B (site 1).
+
+Ops (harness/src/c14.rs runs the same lines on the real code):
+  attach <cap> <keep> <thr>   start the feed (parameters as extracted from the source)
+  m <k:cl,…>                  one raw candidate batch through `match_changes` (`!k:cl` = other table)
+  w <stmts>                   local transaction + its notification (read right after the commit)
+  wc <stmts>                  local transaction, notification held back
+  notify <v>                  held notification delivered now, changes READ NOW (`broadcast_changes`)
+  notifyc <v>                 held notification delivered now with the changes read AT COMMIT
+  wfill <lo> <hi>             `w ins:t:i<n>:a=t66` for n = lo..hi, one transaction each
+  pw <stmts>                  transaction on the peer
+  r <v,…>                     peer versions applied here in this order (`process_multiple_changes`)
+  force                       `thr` batches of one sentinel candidate → threshold flush; events so far
+  drain                       one sentinel batch, then (if still buffering) the deadline; events so far
+  rows                        primary keys present in table t of A
+  tag <word>                  marker
+-/
 namespace Driver.C14
-abbrev State := Unit
-def init : State := ()
-def step (st : State) (_toks : List String) : Option (State × String) := some (st, "bad-op")
+open Corro.Crdt
+open Corro.Updates (Params Event In Cand)
+
+def hexDigit (c : Char) : Option Nat :=
+  if '0' ≤ c ∧ c ≤ '9' then some (c.toNat - '0'.toNat)
+  else if 'a' ≤ c ∧ c ≤ 'f' then some (c.toNat - 'a'.toNat + 10) else none
+
+def parseHex : List Char → Option (List Nat)
+  | [] => some []
+  | [_] => none
+  | a :: b :: rest => do
+    let x ← hexDigit a; let y ← hexDigit b; let r ← parseHex rest
+    pure ((x * 16 + y) :: r)
+
+def parseVal (s : String) : Option Val :=
+  match s.toList with
+  | ['n'] => some .null
+  | 'i' :: rest => (String.ofList rest).toInt?.map Val.int
+  | 't' :: rest => (parseHex rest).map Val.text
+  | 'b' :: rest => (parseHex rest).map Val.blob
+  | _ => none
+
+/-- stored == written: no integers into TEXT-affinity columns, only integers/NULL into `b` -/
+def typeOk (c : String) : Val → Bool
+  | .null => true
+  | .int _ => c == "b"
+  | .text _ => c == "a" || c == "x"
+  | .blob _ => c == "a" || c == "x"
+
+def parseAssigns (s : String) : Option (List (String × Val)) :=
+  (splitList s).mapM fun kv =>
+    match kv.splitOn "=" with
+    | [c, v] => (parseVal v).bind fun x => if typeOk c x then some (c, x) else none
+    | _ => none
+
+def pkOk (tbl pk : String) : Bool :=
+  let n := (pk.splitOn "+").length
+  ((pk.splitOn "+").all (fun t => (parseVal t).isSome)) &&
+  (match tbl with | "u" => n == 2 | "t" => n == 1 | "k" => n == 1 | _ => false)
+
+def parseStmt (s : String) : Option Stmt :=
+  match s.splitOn ":" with
+  | ["ins", tbl, pk] => if pkOk tbl pk then some (.ins tbl pk []) else none
+  | ["ins", tbl, pk, a] => do
+      let cols ← tableCols tbl
+      let asg ← parseAssigns a
+      if pkOk tbl pk ∧ asg.all (fun x => cols.contains x.1) then some (.ins tbl pk asg) else none
+  | ["upd", tbl, pk, a] => do
+      let cols ← tableCols tbl
+      let asg ← parseAssigns a
+      if pkOk tbl pk ∧ ¬ asg.isEmpty ∧ asg.all (fun x => cols.contains x.1) then some (.upd tbl pk asg) else none
+  | ["del", tbl, pk] => if pkOk tbl pk then some (.del tbl pk) else none
+  | _ => none
+
+def insertSorted (x : String) : List String → List String
+  | [] => [x]
+  | y :: ys => if x < y then x :: y :: ys else y :: insertSorted x ys
+
+def sortStrs (xs : List String) : List String := xs.foldl (fun acc x => insertSorted x acc) []
+
+structure State where
+  params  : Option Params := none
+  upd     : Corro.Updates.St := {}
+  keys    : List String := []                 -- interned primary-key tokens; index = model key
+  a       : Db := { site := 0 }
+  b       : Db := { site := 1 }
+  alog    : List (Nat × List Chg) := []       -- A's versions as read at commit
+  pending : List Nat := []
+  blog    : List (Nat × List Chg) := []
+  applied : List Nat := []                    -- peer versions A's bookkeeping already knows
+  drains  : Nat := 0
+  out     : List Event := []                  -- emitted, not yet reported
+
+def init : State := {}
+
+def internGo (tok : String) : List String → Nat → Option Nat
+  | [], _ => none
+  | x :: xs, i => if x = tok then some i else internGo tok xs (i + 1)
+
+def State.intern (st : State) (tok : String) : State × Nat :=
+  match internGo tok st.keys 0 with
+  | some i => (st, i)
+  | none => ({ st with keys := st.keys ++ [tok] }, st.keys.length)
+
+def isSentinel (tok : String) : Bool := tok.startsWith "S"
+
+/-- one batch into the feed (nothing happens before `attach`) -/
+def State.feed (st : State) (b : List Cand) : State :=
+  match st.params with
+  | none => st
+  | some p =>
+    let r := Corro.Updates.step p st.upd (.batch b)
+    { st with upd := r.1, out := st.out ++ r.2 }
+
+def State.tick (st : State) : State :=
+  match st.params with
+  | none => st
+  | some p =>
+    let r := Corro.Updates.step p st.upd .tick
+    { st with upd := r.1, out := st.out ++ r.2 }
+
+/-- what `match_changes` does with one change list -/
+def State.notifyChanges (st : State) (chs : List Chg) : State :=
+  if chs.isEmpty then st else
+  let (st, cs) := chs.foldl (fun (acc : State × List Corro.Updates.Change) c =>
+      let (s, i) := acc.1.intern c.pk
+      (s, acc.2 ++ [⟨c.tbl == "t", i, c.cl⟩])) (st, [])
+  st.feed (Corro.Updates.filterChanges cs)
+
+def showEvent (st : State) (e : Event) : String :=
+  let tok := st.keys.getD e.key "?"
+  tok ++ ":" ++ (match e.kind with | .update => "u" | .delete => "d")
+
+def State.report (st : State) : State × String :=
+  let evs := st.out.filter (fun e => !isSentinel (st.keys.getD e.key "?"))
+  ({ st with out := [] }, "ev " ++ showList (evs.map (showEvent st)))
+
+def repeatFeed (b : List Cand) : Nat → State → State
+  | 0, st => st
+  | n + 1, st => repeatFeed b n (st.feed b)
+
+def parseCand (s : String) : Option (Bool × String × Nat) :=
+  let (mine, body) := if s.startsWith "!" then (false, (s.drop 1).toString) else (true, s)
+  match body.splitOn ":" with
+  | [k, cl] => do
+    let c ← cl.toNat?
+    if (parseVal k).isSome then pure (mine, k, c) else none
+  | _ => none
+
+def localWrite (st : State) (ss : List Stmt) (hold : Bool) : State × String :=
+  match localTx st.a ss with
+  | .error .constraint => (st, "err constraint")
+  | .error .badOp => (st, "bad-op")
+  | .ok (_, none) => (st, "noop")
+  | .ok (d, some (ver, chs)) =>
+    let st := { st with a := d, alog := (ver, chs) :: st.alog }
+    let st := if hold then { st with pending := st.pending ++ [ver] } else st.notifyChanges chs
+    (st, s!"ok v={ver}")
+
+def fillGo (st : State) : Nat → Nat → State
+  | _, 0 => st
+  | n, fuel + 1 =>
+    let (st, _) := localWrite st [.ins "t" s!"i{n}" [("a", .text [0x66])]] false
+    fillGo st (n + 1) fuel
+
+/-- impactful changes of one peer version applied to A, in order -/
+def applyVersion (a : Db) (chs : List Chg) : Db × List Chg :=
+  chs.foldl (fun (acc : Db × List Chg) c =>
+    let a' := merge acc.1 c
+    if a'.rows != acc.1.rows then (a', acc.2 ++ [c]) else (a', acc.2)) (a, [])
+
+def step (st : State) (toks : List String) : Option (State × String) :=
+  match toks with
+  | ["attach", c, k, t] => do
+    let c ← c.toNat?; let k ← k.toNat?; let t ← t.toNat?
+    if st.params.isSome then pure (st, "err attached") else
+    pure ({ st with params := some ⟨c, k, t⟩ }, "ok")
+  | ["tag", _] => pure (st, "ok")
+  | ["m", cands] => do
+    let cs ← (splitList cands).mapM parseCand
+    if cs.isEmpty then none else
+    let (st, chs) := cs.foldl (fun (acc : State × List Corro.Updates.Change) c =>
+      let (s, i) := acc.1.intern c.2.1
+      (s, acc.2 ++ [⟨c.1, i, c.2.2⟩])) (st, [])
+    pure (st.feed (Corro.Updates.filterChanges chs), "ok")
+  | ["w", stmts] => do
+    let ss ← (stmts.splitOn ";").mapM parseStmt
+    let (st, o) := localWrite st ss false
+    if o = "bad-op" then none else pure (st, o)
+  | ["wc", stmts] => do
+    let ss ← (stmts.splitOn ";").mapM parseStmt
+    let (st, o) := localWrite st ss true
+    if o = "bad-op" then none else pure (st, o)
+  | ["wfill", lo, hi] => do
+    let lo ← lo.toNat?; let hi ← hi.toNat?
+    if hi < lo ∨ hi - lo ≥ 5000 then none else
+    pure (fillGo st lo (hi - lo + 1), "ok")
+  | ["notify", v] => do
+    let v ← v.toNat?
+    if ¬ st.pending.contains v then pure (st, "err no-such-pending") else
+    let chs := sortBySeq (st.a.changesOf 0 v 0 1000000000)
+    pure ({ st with pending := st.pending.filter (· ≠ v) }.notifyChanges chs, "ok")
+  | ["notifyc", v] => do
+    let v ← v.toNat?
+    if ¬ st.pending.contains v then pure (st, "err no-such-pending") else
+    match st.alog.find? (·.1 = v) with
+    | none => pure (st, "err no-such-pending")
+    | some (_, chs) => pure ({ st with pending := st.pending.filter (· ≠ v) }.notifyChanges chs, "ok")
+  | ["pw", stmts] => do
+    let ss ← (stmts.splitOn ";").mapM parseStmt
+    match localTx st.b ss with
+    | .error .constraint => pure (st, "err constraint")
+    | .error .badOp => none
+    | .ok (_, none) => pure (st, "noop")
+    | .ok (d, some (ver, chs)) => pure ({ st with b := d, blog := (ver, chs) :: st.blog }, s!"ok v={ver}")
+  | ["r", vs] => do
+    let vs ← natList? vs
+    if vs.isEmpty then none else
+    if vs.any (fun v => (st.blog.find? (·.1 = v)).isNone) then pure (st, "err no-such-version") else
+    -- all versions are merged in one transaction, then notified in order
+    let (st, notes) := vs.foldl (fun (acc : State × List (List Chg)) v =>
+      let st := acc.1
+      if st.applied.contains v then acc else
+      match st.blog.find? (·.1 = v) with
+      | none => acc
+      | some (_, chs) =>
+        let (a', imp) := applyVersion st.a chs
+        ({ st with a := a', applied := v :: st.applied }, acc.2 ++ [imp])) (st, [])
+    pure (notes.foldl (fun s imp => s.notifyChanges imp) st, "ok")
+  | ["force"] => do
+    let p ← st.params
+    let tok := s!"S{st.drains}"
+    let (st, i) := st.intern tok
+    let st := repeatFeed [(i, 1)] p.thr { st with drains := st.drains + 1 }
+    pure st.report
+  | ["drain"] => do
+    let _ ← st.params
+    let tok := s!"S{st.drains}"
+    let (st, i) := st.intern tok
+    let st := ({ st with drains := st.drains + 1 }.feed [(i, 1)]).tick
+    pure st.report
+  | ["rows"] =>
+    let ks := (st.a.rows.filter (fun r => r.tbl = "t" ∧ r.cl % 2 = 1)).map (·.pk)
+    pure (st, "rows " ++ showList (sortStrs ks))
+  | _ => none
+
 end Driver.C14
 def main : IO Unit := Driver.runLoop Driver.C14.init Driver.C14.step
